@@ -16,7 +16,7 @@
 (* Deviation switches (CONSTANTS) name behaviours the code has or had;     *)
 (* with all of them FALSE the specification satisfies the properties.      *)
 (***************************************************************************)
-EXTENDS Integers, Sequences, FiniteSets, SequencesExt, TLC
+EXTENDS LayoutProps
 
 CONSTANTS MaxPage,                   \* configured records per page
           NCols,                     \* number of leaf columns
@@ -32,7 +32,6 @@ VARIABLES chain, pending, docs, rgDocs, rgs, sink, calls, wcount, ops, state, la
 vars == <<chain, pending, docs, rgDocs, rgs, sink, calls, wcount, ops, state, lastRes, faultHit, footer, faultAt>>
 
 Cols == 1..NCols
-Sum(s) == FoldLeft(LAMBDA acc, x : acc + x, 0, s)
 
 \* abstract byte lengths for model checking: never 0, not constant, differ per column
 HdrLen(n)     == 5 + (n % 2)
@@ -68,7 +67,7 @@ CallsAfter(segs) ==
 
 \* ---- NewParquetWriter: writes the magic
 New == /\ state = "fresh"
-       /\ LET segs == << [kind |-> "magic", len |-> 4, w |-> 0, col |-> 0, n |-> 0] >>
+       /\ LET segs == << Seg("magic", 4, 0, 0, 0, 0, 0) >>
               d == Delivered(segs) IN
           /\ sink' = SinkAfter(segs) /\ calls' = CallsAfter(segs)
           /\ faultHit' = d[2] /\ lastRes' = Result(d[2])
@@ -88,8 +87,8 @@ Add == /\ state = "open" /\ ops < MaxOps
 PageSegs(w) ==
   FoldLeft(LAMBDA acc, c : acc \o
      FoldLeft(LAMBDA a2, i : a2 \o
-        << [kind |-> "hdr",  len |-> HdrLen(chain[i]),     w |-> w, col |-> c, n |-> chain[i]],
-           [kind |-> "body", len |-> BodyLen(c, chain[i]), w |-> w, col |-> c, n |-> chain[i]] >>,
+        << Seg("hdr",  HdrLen(chain[i]),     w, c, chain[i], chain[i], BodyLen(c, chain[i])),
+           Seg("body", BodyLen(c, chain[i]), w, c, chain[i], chain[i], 0) >>,
         <<>>, [i \in 1..Len(chain) |-> i]),
      <<>>, [c \in Cols |-> c])
 
@@ -130,11 +129,14 @@ BuildFooter(i, pos, acc) ==
        IF rg.rows = 0
        THEN BuildFooter(i + 1, IF FooterSkipsDroppedBytes THEN pos ELSE pos + total, acc)
        ELSE BuildFooter(i + 1, pos + total,
-              Append(acc, [rows |-> rg.rows,
+              Append(acc, [rows |-> rg.rows, tbs |-> total,
                            cols |-> [c \in Cols |->
-                                      [off   |-> pos + Sum([d \in 1..(c - 1) |-> rg.cols[d].bytes]),
-                                       bytes |-> rg.cols[c].bytes,
-                                       nvals |-> rg.cols[c].nvals]]]))
+                                      LET o == pos + Sum([d \in 1..(c - 1) |-> rg.cols[d].bytes]) IN
+                                      [off    |-> o, fo |-> o,
+                                       bytes  |-> rg.cols[c].bytes,
+                                       ubytes |-> rg.cols[c].bytes,
+                                       nvals  |-> rg.cols[c].nvals,
+                                       codec  |-> 0]]]))
 
 FooterValue ==
   LET kept == BuildFooter(1, 4, <<>>) IN
@@ -143,9 +145,7 @@ FooterValue ==
    rgs |-> kept]
 
 Close == /\ state = "open"
-         /\ LET segs == << [kind |-> "footer", len |-> 7, w |-> 0, col |-> 0, n |-> 0],
-                           [kind |-> "flen",   len |-> 4, w |-> 0, col |-> 0, n |-> 0],
-                           [kind |-> "magic",  len |-> 4, w |-> 0, col |-> 0, n |-> 0] >>
+         /\ LET segs == << Seg("footer", 7, 0, 0, 0, 0, 0), Seg("flen", 4, 0, 0, 0, 0, 0), Seg("magic", 4, 0, 0, 0, 0, 0) >>
                 d == Delivered(segs) IN
             /\ sink' = SinkAfter(segs) /\ calls' = CallsAfter(segs)
             /\ faultHit' = d[2] /\ lastRes' = Result(d[2])
@@ -156,49 +156,14 @@ Close == /\ state = "open"
 Next == New \/ Add \/ Write \/ Close
 Spec == Init /\ [][Next]_vars
 
-\* ---------------------------------------------------------------- ground truth, read off the sink
+\* ---------------------------------------------------------------- the properties (definitions in LayoutProps)
 
-PosOf(i) == Sum([j \in 1..(i - 1) |-> sink[j].len])
-HdrIdx == {i \in 1..Len(sink) : sink[i].kind = "hdr"}
-WritesWithRows == {w \in 1..wcount : \E i \in HdrIdx : sink[i].w = w /\ sink[i].n > 0}
-NthWrite(k) == CHOOSE w \in WritesWithRows : Cardinality({v \in WritesWithRows : v < w}) = k - 1
-FirstPage(w, c) == CHOOSE i \in HdrIdx : sink[i].w = w /\ sink[i].col = c /\
-                      \A j \in HdrIdx : (sink[j].w = w /\ sink[j].col = c) => i <= j
-RowsOf(w) == Sum([i \in 1..Len(sink) |->
-                    IF sink[i].kind = "hdr" /\ sink[i].w = w /\ sink[i].col = 1 THEN sink[i].n ELSE 0])
-BytesOf(w, c) == Sum([i \in 1..Len(sink) |->
-                    IF sink[i].kind \in {"hdr", "body"} /\ sink[i].w = w /\ sink[i].col = c THEN sink[i].len ELSE 0])
-
-\* ---------------------------------------------------------------- the properties
-
-\* C02/C06: the footer tells the truth about the sink
-FooterTruthful ==
-  state = "closed" =>
-    /\ Len(footer.rgs) = Cardinality(WritesWithRows)
-    /\ \A k \in 1..Len(footer.rgs) :
-         LET w == NthWrite(k) IN
-         /\ footer.rgs[k].rows = RowsOf(w)
-         /\ \A c \in Cols : /\ footer.rgs[k].cols[c].off = PosOf(FirstPage(w, c))
-                            /\ footer.rgs[k].cols[c].bytes = BytesOf(w, c)
-                            /\ footer.rgs[k].cols[c].nvals = RowsOf(w)
-    /\ footer.numRows = Sum([k \in 1..Len(footer.rgs) |-> footer.rgs[k].rows])
-
-\* C02: a page holds at most MaxPage records
-PagesLegal == \A i \in HdrIdx : sink[i].n <= MaxPage
-
-\* C02: PAR1 ... footer, length, PAR1
-Framing ==
-  state = "closed" =>
-    /\ sink[1].kind = "magic"
-    /\ Len(sink) >= 4
-    /\ sink[Len(sink)].kind = "magic" /\ sink[Len(sink) - 1].kind = "flen" /\ sink[Len(sink) - 2].kind = "footer"
-
-\* C06: a Write with nothing pending adds no row group and moves nothing
-EmptyWriteInert ==
-  state = "closed" => Len(footer.rgs) = Cardinality(WritesWithRows)
-
+FooterTruthful  == state = "closed" => FooterTruthfulOn(sink, footer, NCols, 0)
+PagesLegal      == PagesLegalOn(sink, MaxPage)
+Framing         == state = "closed" => FramingOn(sink)
+EmptyWriteInert == state = "closed" => RowGroupsMatchBatches(sink, footer)
 \* C09: the API call during which a sink write failed returns an error
-FaultReported == faultHit => lastRes = "err"
+FaultReported   == faultHit => lastRes = "err"
 
 \* structural sanity of the model itself
 TypeOK == /\ Len(chain) >= 1 /\ \A i \in 1..Len(chain) : chain[i] \in 0..MaxPage
